@@ -65,7 +65,7 @@ Definition orefa_remove_a_f := [AW 0; AW 2; AW 4; rW 4; rW 2; rW 0].
 Definition orefa_rename_bg_ax := [AR 0; rR 0; AW 2; AW 5; AW 0; rW 0; rW 5; rW 2].
 Definition orefa_rename_af_ax := [AR 0; rR 0; AW 2; AW 0; rW 0; rW 2].
 Definition orefa_rename_af_bx := [AR 0; rR 0; AW 5; AW 2; AW 0; rW 0; rW 2; rW 5].
-Definition orefa_link_af_bx := [AR 0; rR 0; AW 4; AW 5; AW 0; rW 0; rW 5; rW 4].
+Definition orefa_link_af_bx := [AR 0; rR 0; AR 5; rR 5; AR 4; rR 4; AW 4; AW 5; AW 0; rW 0; rW 5; rW 4].
 Definition memfs_rename_af_bx :=
   [AR 0; rR 0; AR 1; rR 1; AR 1; rR 1; AR 0; rR 0; AR 4; rR 4; AR 4; rR 4; AW 1; AW 4; rW 4; rW 1].
 Definition memfs_rename_bg_ax :=
@@ -94,9 +94,9 @@ Lemma orefa_rename_mkdir_deadlock :
   lp_reaches_deadlock [orefa_rename_bg_ax; orefa_mkdir_a_x] [0; 0; 0; 1] = true.
 Proof. vm_compute. reflexivity. Qed.
 
-(* OrefaFS Link (file, new parent, then the index lock) against Remove (index, parent, child) *)
+(* OrefaFS Link (directory tests under read locks, then file, new parent, index lock) against Remove (index, parent, child) *)
 Lemma orefa_link_remove_deadlock :
-  lp_reaches_deadlock [orefa_link_af_bx; orefa_remove_a_f] [0; 0; 0; 1; 1] = true.
+  lp_reaches_deadlock [orefa_link_af_bx; orefa_remove_a_f] [0; 0; 0; 0; 0; 1; 1] = true.
 Proof. vm_compute. reflexivity. Qed.
 
 (* two opposite cross-directory OrefaFS Renames: new parent then old parent, in opposite orders *)
